@@ -445,7 +445,8 @@ class Check:
             if cls not in self.known_seen:
                 self.notes.append("listed finding %s was not reproduced in this run" % cls)
         seen = set()
-        for path, what, nofail in self.violations:
+        # concrete failing inputs first, broken obligations / correspondences (no failing input found) after them
+        for path, what, nofail in sorted(self.violations, key=lambda v: 1 if v[2] else 0):
             if path in seen:
                 continue
             seen.add(path)
